@@ -10,6 +10,10 @@
 //   L7_mixture           mixture of 2-3 continuous distributions: normalisation, merged classes, cdf, history
 //   L8_exponential_tail  an exponential whose restricted domain is left with 1e-3 .. 1e-43 of the mass: the update returns
 //                        and leaves K finite class values (carries the known NaN / hang finding)
+// Several live objects (L2, L5, L6, L7): what a clone / an assignment leaves behind (the original or the copy) and the component
+// objects handed to the Mixture constructor are kept alive; after every step they must be bit-identical to what they were
+// (classes, bounds, domain, parameters): the state of a distribution is a function of its own history. L2 also goes on with
+// the object left behind ("continue with #n") and checks all invariants on it.
 // The first draw of L1, L2, L5, L6, L7 switches the value lookups after every step on (0 = off), so that a failure that is
 // not about lookups shrinks to a case without them.
 //
@@ -28,6 +32,13 @@
 //   * the masses are only compared where every quantile argument lies in [1e-5, 1-1e-5] (working range of the quantile
 //     functions, C08) and the domain carries at least 1e-3 of the parent's mass; other states are only exercised
 //     (label "irregular"); the laws do not lead there: a history ends before an operation that would (label "stopped_...");
+//   * scheme "equal probabilities when possible" (the dispatch with its fall-back is part of the property's mechanism): the
+//     object either keeps equal probabilities and then no class is an empty interval (consecutive bounds, the ends of the
+//     domain included, are distinguishable), or has fallen back to equal intervals and then two of the equal-probability
+//     bounds (quantiles of lower + i*mass/K computed as the class computes them) do coincide. The plain equal-probability
+//     scheme has no alternative: there a class squeezed against an end of the domain is judged in bracket form only;
+//   * the Uniform constructor orders its two arguments itself (min_/max_): either order is an accepted construction of the
+//     distribution on [min(a,b), max(a,b)];
 //   * a compound's own interval structure (InvariantMixed) is only checked while the nested classes are mean-valued: scaled
 //     medians may leave their intervals and the compound's bounds are built from those values;
 //   * the cdf of a mixture is compared where every component's cdf is defined (intersection of the components' domains).
@@ -120,13 +131,23 @@ double genLoc(vf::Ctx& c) {  // location: 0, +-nice, +-log-uniform
     default: { double x = c.logu(0.1, 100); return c.flag() ? -x : x; }
   }
 }
-double genShapeBeta(vf::Ctx& c) { double x = genPos(c); return x < BETA_SHAPE_MIN ? BETA_SHAPE_MIN : x; }
+// Beta shapes: besides the body of the range, its two edges (the corners of the shape box pile the mass against an end of
+// [0,1]: with many classes the outer quantiles cannot be told from that end and the outer classes degenerate)
+double genShapeBeta(vf::Ctx& c) {
+  switch (c.weighted({5, 1, 1})) {
+    case 1: return c.flag() ? c.logu(BETA_SHAPE_MIN, 1.1 * BETA_SHAPE_MIN) : BETA_SHAPE_MIN;
+    case 2: return c.flag() ? c.logu(10, 100) : c.pick({100.0, 30.0, 50.0});
+    default: { double x = genPos(c); return x < BETA_SHAPE_MIN ? BETA_SHAPE_MIN : x; }
+  }
+}
 
 CP genCP(vf::Ctx& c, Fam f) {
   CP q; q.f = f;
   switch (f) {
     case F_EXPO: q.a = genPos(c); break;
-    case F_UNIF: q.a = c.flag() ? c.real(-10, 10) : static_cast<double>(c.zig(10)); q.b = q.a + genPos(c); break;
+    case F_UNIF: {  // (one draw: bit 0 = real-valued lower end, bit 1 = the ends are handed over in decreasing order)
+      unsigned u = static_cast<unsigned>(c.below(4));
+      q.a = (u & 1) ? c.real(-10, 10) : static_cast<double>(c.zig(10)); q.b = q.a + genPos(c); q.rev = (u & 2) != 0; break; }
     case F_GAUSS: q.a = genLoc(c); q.b = genPos(c); break;
     case F_GAMMA:
       q.a = genPos(c); q.b = genPos(c);
@@ -144,7 +165,9 @@ CP genCP(vf::Ctx& c, Fam f) {
   return q;
 }
 Fam genFam(vf::Ctx& c) { return static_cast<Fam>(c.below(NFAM)); }
-size_t genK(vf::Ctx& c) { return c.weighted({3, 2}) == 0 ? static_cast<size_t>(c.irange(1, 8)) : static_cast<size_t>(c.irange(1, 32)); }
+size_t genK(vf::Ctx& c) {  // small counts, the whole range, the upper edge of the range
+  switch (c.weighted({3, 2, 1})) { case 0: return static_cast<size_t>(c.irange(1, 8)); case 1: return static_cast<size_t>(c.irange(1, 32)); default: return static_cast<size_t>(c.irange(25, 32)); }
+}
 short genScheme(vf::Ctx& c, Fam f) { return f == F_BETA ? static_cast<short>(1 + c.below(3)) : SCH_EQPROB; }
 
 // a new value for parameter `which` of q; *bad: the value is meant to be rejected by the natural constraint
@@ -169,7 +192,7 @@ double genParamValue(vf::Ctx& c, const CP& q, int which, bool wantBad, bool* bad
   }
   double cur = field(q, which), x;
   if (c.weighted({3, 2}) == 0) { x = cur * c.pick({2.0, 0.5, 1.25, 0.8, 1.0 + 1e-9}); }
-  else x = genPos(c);
+  else x = q.f == F_BETA ? genShapeBeta(c) : genPos(c);
   double lo = q.f == F_BETA ? BETA_SHAPE_MIN : 0.1;
   if (x < lo) x = lo;
   if (x > 100) x = 100;
@@ -332,6 +355,22 @@ void checkCont(vf::Ctx& c, const DDI& d, const Model& m, const CheckOpt& opt, co
   bool equalProb = m.scheme != SCH_EQINT;   // "when possible" may fall back to equal intervals (documented)
   for (size_t k = 0; k < K; ++k) if (std::abs(o.p[k] - 1.0 / static_cast<double>(K)) > 4 * EPS) equalProb = false;
   if (m.scheme == SCH_EQPROB) CHECK(equalProb, where << ": equal-probability scheme but the class probabilities are " << showVec(o.p));
+  if (m.scheme == SCH_WHENPOSSIBLE && K >= 2) {
+    // "equal probabilities when possible": the dispatch keeps the equal-probability partition unless two consecutive
+    // bounds of it (the ends of the domain included) cannot be told apart, and then falls back to equal intervals.
+    // Either way no class with a positive probability sits on an empty interval: a point carries no mass of the parent.
+    if (equalProb) {
+      for (size_t k = 0; k < K; ++k) CHECK(o.b[k] < o.b[k + 1], where << ": equal-probabilities-when-possible kept the equal-probability partition although class " << k << " (probability " << vf::dec(o.p[k]) << ") is the empty interval [" << vf::dec(o.b[k]) << ";" << vf::dec(o.b[k + 1]) << "]: it is not possible there, equal intervals are the documented fall-back; bounds " << showVec(o.b));
+    } else {
+      // the fall-back is only taken where it is needed: the equal-probability bounds (the quantiles of lower + i * mass / K,
+      // computed as the class computes them) contain two that coincide
+      c.label("fell_back_to_equal_intervals");
+      double minX = d.pProb(lo), maxX = d.pProb(hi), ec = (maxX - minX) / static_cast<double>(K), prev = lo; bool coincide = false;
+      for (size_t i = 1; i < K; ++i) { double b = d.qProb(minX + static_cast<double>(i) * ec); if (b == prev) coincide = true; prev = b; }
+      if (prev == hi) coincide = true;
+      CHECK(coincide, where << ": equal-probabilities-when-possible fell back to equal intervals (probabilities " << showVec(o.p) << ") although the " << K - 1 << " equal-probability bounds are all distinguishable from each other and from the ends of the domain");
+    }
+  }
   if (!equalProb) {  // equal intervals (requested, or the documented fall-back of "when possible")
     double w = (hi - lo) / static_cast<double>(K), t = 8 * EPS * std::max(std::abs(lo), std::abs(hi));
     for (size_t k = 0; k < K; ++k) {
@@ -416,8 +455,10 @@ void checkCont(vf::Ctx& c, const DDI& d, const Model& m, const CheckOpt& opt, co
         for (size_t k = 0; k < K; ++k) {
           double want = static_cast<double>(cfac * med[k]), errV = std::abs(want) * rel + slack;
           // documented adjustment: a value beyond an end of the domain is moved to that end +- precision (then separated)
-          if (want < lo + prec + errV && std::abs(o.v[k] - lo) <= slack * (1 + 4 * EPS) + 4 * EPS * std::abs(lo)) { adjusted = true; continue; }
-          if (want > hi - prec - errV && std::abs(o.v[k] - hi) <= slack * (1 + 4 * EPS) + 4 * EPS * std::abs(hi)) { adjusted = true; continue; }
+          // (values piled on an end are separated by the precision as the class's comparator sees it: a difference of exactly one
+          //  precision still counts as "identical" after rounding, the next free slot is then two precisions away)
+          if (want < lo + prec + errV && std::abs(o.v[k] - lo) <= 2 * slack * (1 + 4 * EPS) + 4 * EPS * std::abs(lo)) { adjusted = true; continue; }
+          if (want > hi - prec - errV && std::abs(o.v[k] - hi) <= 2 * slack * (1 + 4 * EPS) + 4 * EPS * std::abs(hi)) { adjusted = true; continue; }
           double dv = std::abs(o.v[k] - want);
           c.observe("medianvalue/tol[" + string(famName(q.f)) + "]", dv / errV);
           CHECK(dv <= errV, where << ": median-valued class " << k << " has value " << vf::dec(o.v[k]) << ", expected factor*median = " << vf::dec(want) << " (factor " << vf::dec(static_cast<double>(cfac)) << " makes the discrete mean equal the parent's mean; tolerance " << errV << "); values " << showVec(o.v));
@@ -504,6 +545,23 @@ bool genRestriction(vf::Ctx& c, const DDI& d, bool useQuantiles, MassF massOf, R
 }
 string showRestr(const Restr& r) { return string(r.in1 ? "[" : "]") + vf::dec(r.x1) + ";" + vf::dec(r.x2) + (r.in2 ? "]" : "["); }
 
+// ------------------------------------------------------------------ other live objects of a history
+// Copies (clone, assignment, the copies a compound takes of the objects handed to its constructor) are objects of their
+// own: the state of a distribution is a function of its own history. The objects a history leaves behind are kept alive
+// and must stay bit-identical (classes, bounds, domain, parameters) whatever is done to the object the history goes on with.
+struct Bystander { unique_ptr<DDI> d; Obs snap; string role; };
+void keepBystander(vector<Bystander>& bs, unique_ptr<DDI> d, const string& role) {
+  Obs o = observeD(*d);
+  if (bs.size() >= 4) bs.erase(bs.begin());
+  bs.push_back(Bystander{std::move(d), o, role});
+}
+void checkBystanders(const vector<Bystander>& bs, const string& where) {
+  for (const Bystander& b : bs) {
+    string df = diffObs(b.snap, observeD(*b.d));
+    CHECK(df.empty(), where << ": the operation changed the " << df << " of " << b.role << ", an object of its own that was not operated on: domain " << (b.snap.slo ? "]" : "[") << vf::dec(b.snap.lo) << ";" << vf::dec(b.snap.hi) << (b.snap.shi ? "[" : "]") << " before, " << (b.d->strictLowerBound() ? "]" : "[") << vf::dec(b.d->getLowerBound()) << ";" << vf::dec(b.d->getUpperBound()) << (b.d->strictUpperBound() ? "[" : "]") << " now");
+  }
+}
+
 }  // namespace
 
 // =================================================================== L1: fresh objects, exhaustive over K
@@ -512,17 +570,17 @@ LAW(L1_fresh_enum, ENUM, 4, 4, 0, "K >= 2 and (shape < 1 or median-valued classe
   Fam f = static_cast<Fam>(c.below(NFAM));
   size_t K = static_cast<size_t>(c.irange(1, 32));
   bool median = c.flag();
-  int preset = static_cast<int>(c.below(4));
+  int preset = static_cast<int>(c.below(6));   // 4, 5: the two far corners of the parameter range (0.1 and 100)
   short scheme = f == F_BETA ? static_cast<short>(1 + c.below(3)) : SCH_EQPROB;
-  static const double A[4] = {1, 0.1, 0.5, 20}, B[4] = {1, 0.1, 5, 2};
+  static const double A[6] = {1, 0.1, 0.5, 20, 100, 0.1}, B[6] = {1, 0.1, 5, 2, 0.1, 100}, BB[6] = {2, 5, 0.1, 1, 0.1, 100};
   Model m; m.q.f = f; m.K = K; m.median = false; m.scheme = scheme;
   switch (f) {
     case F_EXPO: m.q.a = B[preset]; break;
-    case F_UNIF: m.q.a = preset == 0 ? 0 : -A[preset]; m.q.b = m.q.a + B[preset]; break;
+    case F_UNIF: m.q.a = preset == 0 ? 0 : -A[preset]; m.q.b = m.q.a + B[preset]; m.q.rev = preset % 2 == 1; break;   // odd presets: built as (max, min)
     case F_GAUSS: m.q.a = preset == 0 ? 0 : preset == 1 ? -3 : A[preset]; m.q.b = B[preset]; break;
     case F_GAMMA: m.q.a = A[preset]; m.q.b = preset == 1 ? 0.1 : B[preset]; m.q.hasOff = preset >= 2; m.q.off = preset == 2 ? 1.5 : preset == 3 ? -2 : 0; break;
     case F_TEXP: m.q.a = B[preset]; m.q.b = A[preset]; break;
-    case F_BETA: m.q.a = std::max(BETA_SHAPE_MIN, A[preset]); m.q.b = std::max(BETA_SHAPE_MIN, B[3 - preset]); break;
+    case F_BETA: m.q.a = std::max(BETA_SHAPE_MIN, A[preset]); m.q.b = std::max(BETA_SHAPE_MIN, BB[preset]); break;
     default: break;
   }
   c.desc << (lookups ? "[lookups] " : "") << showModel(m) << (median ? " then setMedian(1)" : "");
@@ -537,7 +595,7 @@ LAW(L1_fresh_enum, ENUM, 4, 4, 0, "K >= 2 and (shape < 1 or median-valued classe
 }
 
 // =================================================================== L2: histories on the continuous families
-LAW(L2_history, RC, 9000, 400000, 160, "K >= 2 and (a restriction, a class-count change or a rejected update occurred), or a shape < 1", 3, true) {
+LAW(L2_history, RC, 9000, 400000, 190, "K >= 2 and (a restriction, a class-count change or a rejected update occurred), or a shape < 1", 3, true) {
   CheckOpt opt; opt.lookups = c.flag();
   Model m; m.q = genCP(c, genFam(c)); m.K = genK(c); m.scheme = genScheme(c, m.q.f);
   bool startMedian = c.oneIn(3);
@@ -549,10 +607,23 @@ LAW(L2_history, RC, 9000, 400000, 160, "K >= 2 and (a restriction, a class-count
   if (startMedian) { c.desc << "; setMedian(1)"; m.median = true; try { guardKnown(c, m, d->getLowerBound(), d->getUpperBound()); } catch (StopHistory&) { throw vf::Skip(); } d->setMedian(true); checkCont(c, *d, m, opt, "after setMedian(true)"); }
   bool restricted = false, kChanged = false, rejected = false;
   bool texpBound = false;   // an accepted restriction made the domain object the constraint of the truncation point
+  // the second live object: what a clone / an assignment leaves behind (the original or the copy). Every operation is made
+  // on one object, the other one must stay bit-identical, and the history may go on with it ("continue with")
+  struct Other { unique_ptr<DDI> d; Model m; bool texpBound = false; Obs snap; int id = 0; } other;
+  int cur = 1, nextId = 2;
+  auto leaveBehind = [&](unique_ptr<DDI> x, const Model& xm, bool xb, int id) { other.snap = observeD(*x); other.d = std::move(x); other.m = xm; other.texpBound = xb; other.id = id; };
+  // Known finding: TruncatedExponential::restrictToConstraint makes the domain object the constraint of the parameter tp;
+  // a copy (clone / assignment) gets a domain object of its own but its tp keeps pointing to the ORIGINAL's one: when the
+  // original's domain moves afterwards (restriction, tp update) the constraint of the copy's tp moves with it.
+  auto tpConstraintOfTheOtherFollowsThisDomain = [&]() {
+    if (m.q.f != F_TEXP || !other.d || !texpBound) return false;
+    const Parameter& p1 = d->parameter("tp"); const Parameter& p2 = other.d->parameter("tp");
+    return p1.hasConstraint() && p2.hasConstraint() && p1.getConstraint().get() == p2.getConstraint().get();
+  };
   const string ns = nsOf(m.q.f);
   int nops = c.irange(0, 12);
   for (int op = 0; op < nops; ++op) {
-    int kind = static_cast<int>(c.weighted({4, 2, 3, 2, 3, 1, 1, 1}));
+    int kind = static_cast<int>(c.weighted({4, 2, 3, 2, 3, 1, 1, 1, 2}));
     vector<PRef> prs = paramsOf(m.q);
     if ((kind == 0 || kind == 1) && prs.empty()) kind = 5;
     ostringstream w; w << "after op " << op + 1 << " ";
@@ -579,6 +650,7 @@ LAW(L2_history, RC, 9000, 400000, 160, "K >= 2 and (a restriction, a class-count
           double dlo = d->getLowerBound(), dhi = m.q.f == F_TEXP ? nq.b : d->getUpperBound();
           if (m.q.f == F_GAMMA && nq.off > dlo) c.excludeIfKnown("C09-gamma-offset-domain");
           Model nm = m; nm.q = nq; guardKnown(c, nm, dlo, dhi);
+          if (nq.b != m.q.b && tpConstraintOfTheOtherFollowsThisDomain()) c.excludeIfKnown("C09-texp-copy-tp-constraint-shared");
         }
         Obs before = observeD(*d);
         try {
@@ -619,6 +691,7 @@ LAW(L2_history, RC, 9000, 400000, 160, "K >= 2 and (a restriction, a class-count
         guardKnown(c, m, nlo, nhi);
         // the domain object shared with the parameter is narrowed before the truncation point is validated
         if (expectThrow && texpBound) c.excludeIfKnown("C09-texp-refused-restriction");
+        if (!expectThrow && tpConstraintOfTheOtherFollowsThisDomain()) c.excludeIfKnown("C09-texp-copy-tp-constraint-shared");
         try {
           d->restrictToConstraint(ic);
           if (m.q.f == F_TEXP) texpBound = true;
@@ -636,7 +709,15 @@ LAW(L2_history, RC, 9000, 400000, 160, "K >= 2 and (a restriction, a class-count
         unique_ptr<DDI> e(d->clone());
         string df = diffObs(observeD(*d), observeD(*e));
         CHECK(df.empty(), w.str() << ": the clone differs from the original in the " << df);
-        if (c.flag()) { d = std::move(e); texpBound = false; }  // the copy's parameter still points to the domain object of the original
+        int id = nextId++;
+        if (c.flag()) { c.desc << " #" << id << ", continue with the clone"; swap(d, e); leaveBehind(std::move(e), m, texpBound, cur); cur = id; texpBound = false; }  // the copy's parameter still points to the domain object of the original
+        else { c.desc << " #" << id; leaveBehind(std::move(e), m, false, id); }
+        break; }
+      case 8: {  // go on with the object left behind
+        if (!other.d) { c.desc << "; nop"; w << "nop"; break; }
+        c.desc << "; continue with #" << other.id; w << "continue with the other object";
+        unique_ptr<DDI> x = std::move(other.d); Model xm = other.m; bool xb = other.texpBound; int xid = other.id;
+        swap(d, x); leaveBehind(std::move(x), m, texpBound, cur); m = xm; texpBound = xb; cur = xid;
         break; }
       default: {  // assign over an object of the same class built with other parameters
         Model o2; o2.q = genCP(c, m.q.f); o2.K = genK(c); o2.scheme = genScheme(c, m.q.f);
@@ -645,10 +726,14 @@ LAW(L2_history, RC, 9000, 400000, 160, "K >= 2 and (a restriction, a class-count
         assignSame(m.q.f, *e, *d);
         string df = diffObs(observeD(*d), observeD(*e));
         CHECK(df.empty(), w.str() << ": the assigned object differs from the source in the " << df);
-        d = std::move(e); texpBound = false;
+        swap(d, e); leaveBehind(std::move(e), m, texpBound, cur); cur = nextId++; texpBound = false;
         break; }
     }
     } catch (StopHistory&) { c.desc << " [the history ends here: the operation would leave the regular range]"; c.label("stopped_before_leaving_the_regular_range"); break; }
+    if (other.d) {
+      string df = diffObs(other.snap, observeD(*other.d));
+      CHECK(df.empty(), w.str() << " on #" << cur << ": the operation changed the " << df << " of #" << other.id << ", an object of its own that was not operated on: its domain is now " << (other.d->strictLowerBound() ? "]" : "[") << vf::dec(other.d->getLowerBound()) << ";" << vf::dec(other.d->getUpperBound()) << (other.d->strictUpperBound() ? "[" : "]") << ", it was " << (other.snap.slo ? "]" : "[") << vf::dec(other.snap.lo) << ";" << vf::dec(other.snap.hi) << (other.snap.shi ? "[" : "]"));
+    }
     if (op >= nops) break;
     checkCont(c, *d, m, opt, w.str());
     if (paramsChanged) checkParent(c, *d, m.q, w.str() + " (parent functions)", 0);
@@ -707,6 +792,8 @@ LAW(L4_lookup, RC, 6000, 300000, 40, "K >= 2 and the point is not in the first c
   if (pos == 0) { x = b[k] + w * (0.05 + 0.9 * c.unit()); if (!(w > 8 * slack) || !(x > b[k] + 2 * slack && x < b[k + 1] - 2 * slack)) throw vf::Skip(); }
   else if (pos == 1) { if (k == 0) throw vf::Skip(); x = b[k]; }
   else { if (k + 1 == K) throw vf::Skip(); x = b[k + 1]; }
+  // an interior bound that cannot be told from an open end of the domain is off the domain (same reading as checkLookups)
+  if ((x == d->getLowerBound() && d->strictLowerBound()) || (x == d->getUpperBound() && d->strictUpperBound())) throw vf::Skip();
   size_t f = K, l = 0; for (size_t j = 0; j < K; ++j) if (b[j] <= x && x <= b[j + 1]) { if (f == K) f = j; l = j; }
   c.desc << (byIndex ? " getCategoryIndex(" : " getValueCategory(") << vf::dec(x) << ") point of class " << f << (l != f ? "+" : "");
   c.nt(K >= 2 && f >= 1);
@@ -800,7 +887,7 @@ bool nestedRegular(const Model& m, const DDI& nd) { return regularState(m, refP(
 }  // namespace
 
 // =================================================================== L5: user-specified and constant distributions
-LAW(L5_simple_constant, RC, 5000, 200000, 140, "at least two classes and (an update of a value or a weight, a restriction, or a rejected update)", 5, true) {
+LAW(L5_simple_constant, RC, 5000, 200000, 170, "at least two classes and (an update of a value or a weight, a restriction, or a rejected update)", 5, true) {
   CheckOpt opt; opt.lookups = c.flag(); if (opt.lookups) c.desc << "[lookups] ";
   bool constant = c.oneIn(5);
   opt.domainEndsRaise = false; opt.lookT = 0.05 + 0.9 * c.unit();
@@ -833,7 +920,7 @@ LAW(L5_simple_constant, RC, 5000, 200000, 140, "at least two classes and (an upd
       th[i] = got;
     }
   };
-  double cval = 0;
+  double cval = 0; vector<Bystander> left;
   if (constant) { cval = genValue(); c.desc << "Constant(" << vf::dec(cval) << ")"; d.reset(new ConstantDistribution(cval)); }
   else buildSimple(d, V, theta, fixed, ranges);
   auto check = [&](const string& where) {
@@ -843,7 +930,7 @@ LAW(L5_simple_constant, RC, 5000, 200000, 140, "at least two classes and (an upd
       CHECK(vf::sameBits(o.lo, cval) && vf::sameBits(o.hi, cval), where << ": domain of the constant distribution");
       if (opt.lookups) CHECK(vf::sameBits(d->getValueCategory(cval), cval), where << ": getValueCategory(value)");
       if (opt.lookups && !c.isKnown("C09-lookup-off-by-one")) CHECK(d->getCategoryIndex(cval) == 0, where << ": getCategoryIndex(value)");
-      auditParams(*d, where); return;
+      auditParams(*d, where); checkBystanders(left, where); return;
     }
     size_t n = V.size(); double prec = precisionOf(*d);
     Obs o = checkStructure(*d, n, (n + 1) * prec, 1e-12, true, where);
@@ -854,6 +941,7 @@ LAW(L5_simple_constant, RC, 5000, 200000, 140, "at least two classes and (an upd
     for (size_t k = 0; k + 1 < n; ++k) CHECK(std::abs(o.b[k + 1] - (o.v[k] + o.v[k + 1]) / 2) <= 4 * EPS * std::max(std::abs(o.v[k]), std::abs(o.v[k + 1])), where << ": interior bound " << k << " = " << vf::dec(o.b[k + 1]) << " is not between the values " << vf::dec(o.v[k]) << " and " << vf::dec(o.v[k + 1]));
     if (opt.lookups) checkLookups(c, *d, o, (n + 1) * prec, opt, where);
     auditParams(*d, where);
+    checkBystanders(left, where);
   };
   check("after construction");
   bool touched = false, rejected = false;
@@ -926,7 +1014,7 @@ LAW(L5_simple_constant, RC, 5000, 200000, 140, "at least two classes and (an upd
       case 4: {
         c.desc << "; clone"; w << "clone"; unique_ptr<DDI> e(d->clone());
         string df = diffObs(observeD(*d), observeD(*e)); CHECK(df.empty(), w.str() << ": the clone differs from the original in the " << df);
-        if (c.flag()) d = std::move(e);
+        if (c.flag()) { c.desc << ", continue with it"; swap(d, e); keepBystander(left, std::move(e), "the original it was cloned from"); } else keepBystander(left, std::move(e), "its clone");
         break; }
       default: {  // assignment over another object of the same class
         c.desc << "; assign over "; w << "assignment";
@@ -934,7 +1022,7 @@ LAW(L5_simple_constant, RC, 5000, 200000, 140, "at least two classes and (an upd
         if (constant) { double y = genValue(); c.desc << "Constant(" << vf::dec(y) << ")"; e.reset(new ConstantDistribution(y)); dynamic_cast<ConstantDistribution&>(*e) = dynamic_cast<const ConstantDistribution&>(*d); }
         else { vector<double> v2, t2; bool f2; map<size_t, vector<double>> r2; buildSimple(e, v2, t2, f2, r2); dynamic_cast<SimpleDiscreteDistribution&>(*e) = dynamic_cast<const SimpleDiscreteDistribution&>(*d); }
         string df = diffObs(observeD(*d), observeD(*e)); CHECK(df.empty(), w.str() << ": the assigned object differs from the source in the " << df);
-        d = std::move(e);
+        swap(d, e); keepBystander(left, std::move(e), "the source of the assignment");
         break; }
     }
     check(w.str());
@@ -965,9 +1053,10 @@ LAW(L6_invariant_mixed, RC, 4000, 200000, 170, "the invariant lies inside the su
   unique_ptr<DDI> d(new InvariantMixedDiscreteDistribution(std::move(nd), wts[0], inv));
   auto nestedOf = [&](size_t) -> const DDI& { return dynamic_cast<const InvariantMixedDiscreteDistribution&>(*d).variableSubDistribution(); };
   opt.lookT = 0.05 + 0.9 * c.unit();
-  bool outerMedian = false;
+  bool outerMedian = false; vector<Bystander> left;
   auto check = [&](const string& where) {
     const DDI& nst = nestedOf(0);
+    checkBystanders(left, where);
     checkCont(c, nst, nm, opt, where + " (nested distribution)");
     if (!nestedRegular(nm, nst)) { auditParams(*d, where); return; }
     double prec = precisionOf(*d), p = wts[0];
@@ -1034,7 +1123,7 @@ LAW(L6_invariant_mixed, RC, 4000, 200000, 170, "the invariant lies inside the su
       case 5: {
         c.desc << "; clone"; w << "clone"; unique_ptr<DDI> e(d->clone());
         string df = diffObs(observeD(*d), observeD(*e)); CHECK(df.empty(), w.str() << ": the clone differs from the original in the " << df);
-        if (c.flag()) d = std::move(e);
+        if (c.flag()) { c.desc << ", continue with it"; swap(d, e); keepBystander(left, std::move(e), "the original it was cloned from"); } else keepBystander(left, std::move(e), "its clone");
         break; }
       default: {
         Model o2 = genNestedModel(c, true); double p2 = c.unit(), i2 = static_cast<double>(c.zig(3));
@@ -1043,7 +1132,7 @@ LAW(L6_invariant_mixed, RC, 4000, 200000, 170, "the invariant lies inside the su
         unique_ptr<DDI> e(new InvariantMixedDiscreteDistribution(make(o2.q, o2.K, o2.scheme), p2, i2));
         dynamic_cast<InvariantMixedDiscreteDistribution&>(*e) = dynamic_cast<const InvariantMixedDiscreteDistribution&>(*d);
         string df = diffObs(observeD(*d), observeD(*e)); CHECK(df.empty(), w.str() << ": the assigned object differs from the source in the " << df);
-        d = std::move(e);
+        swap(d, e); keepBystander(left, std::move(e), "the source of the assignment");
         break; }
     }
     } catch (StopHistory&) { c.desc << " [the history ends here: the operation would leave the regular range]"; c.label("stopped_before_leaving_the_regular_range"); break; }
@@ -1070,6 +1159,9 @@ LAW(L7_mixture, RC, 3000, 150000, 220, "always (compound family): 2-3 components
   for (size_t i = 0; i < nc; ++i) { c.desc << (i ? " + " : "") << vf::dec(probas[i]) << "*" << showModel(comps[i]); objs.push_back(make(comps[i].q, comps[i].K, comps[i].scheme)); try { guardKnown(c, comps[i], objs[i]->getLowerBound(), objs[i]->getUpperBound()); } catch (StopHistory&) { throw vf::Skip(); } }
   c.desc << ")";
   unique_ptr<DDI> d(new MixtureOfDiscreteDistributions(objs, probas));
+  // the mixture works on its own copies: the objects handed to the constructor stay alive and must never change
+  vector<Bystander> left, handed;
+  for (size_t i = 0; i < nc; ++i) keepBystander(handed, std::move(objs[i]), "the component object " + to_string(i + 1) + " handed to the constructor (the mixture holds a copy of it)");
   objs.clear();
   auto mix = [&]() -> const MixtureOfDiscreteDistributions& { return dynamic_cast<const MixtureOfDiscreteDistributions&>(*d); };
   auto nestedOf = [&](size_t i) -> const DDI& { return mix().nDistribution(i); };
@@ -1079,6 +1171,7 @@ LAW(L7_mixture, RC, 3000, 150000, 220, "always (compound family): 2-3 components
   bool outerMedian = false;
   auto check = [&](const string& where) {
     bool regular = true;
+    checkBystanders(handed, where); checkBystanders(left, where);
     for (size_t i = 0; i < nc; ++i) { checkCont(c, nestedOf(i), comps[i], opt, where + " (component " + to_string(i + 1) + ")"); if (!nestedRegular(comps[i], nestedOf(i))) regular = false; }
     CHECK(mix().getNumberOfDistributions() == nc, where << ": number of components");
     // weights: p_i = theta_i * prod_{j<i} (1-theta_j)
@@ -1144,7 +1237,7 @@ LAW(L7_mixture, RC, 3000, 150000, 220, "always (compound family): 2-3 components
       case 5: {
         c.desc << "; clone"; w << "clone"; unique_ptr<DDI> e(d->clone());
         string df = diffObs(observeD(*d), observeD(*e)); CHECK(df.empty(), w.str() << ": the clone differs from the original in the " << df);
-        if (c.flag()) d = std::move(e);
+        if (c.flag()) { c.desc << ", continue with it"; swap(d, e); keepBystander(left, std::move(e), "the original it was cloned from"); } else keepBystander(left, std::move(e), "its clone");
         break; }
       default: {
         c.desc << "; assign over Mixture(Exponential(1) K=2 + Uniform(0,1) K=1)"; w << "assignment";
@@ -1152,7 +1245,7 @@ LAW(L7_mixture, RC, 3000, 150000, 220, "always (compound family): 2-3 components
         unique_ptr<DDI> e(new MixtureOfDiscreteDistributions(o2, {0.5, 0.5}));
         dynamic_cast<MixtureOfDiscreteDistributions&>(*e) = mix();
         string df = diffObs(observeD(*d), observeD(*e)); CHECK(df.empty(), w.str() << ": the assigned object differs from the source in the " << df);
-        d = std::move(e);
+        swap(d, e); keepBystander(left, std::move(e), "the source of the assignment");
         break; }
     }
     } catch (StopHistory&) { c.desc << " [the history ends here: the operation would leave the regular range]"; c.label("stopped_before_leaving_the_regular_range"); break; }
